@@ -19,6 +19,18 @@
 (* several defects may be answered as any one of them demands (the          *)
 (* statement fixes no precedence), the exact 4xx/5xx code is free, the      *)
 (* message texts are free, bodies of 4xx/5xx answers are free.              *)
+(*                                                                         *)
+(* Environment of a request (e.env): the listener's indication queue has   *)
+(* capacity qcap (0 = unbounded); `drained` = the tester has SEEN, before   *)
+(* it sent this request, that every indication accepted so far was         *)
+(* delivered, that the callback is not being held and that no earlier      *)
+(* connection is still open.  The machine counts the requests since the    *)
+(* last drained point that may have put an indication into the queue       *)
+(* (`held`): only when held >= qcap can the queue be full, and only then    *)
+(* may a VALID indication be refused with an export ERROR ("enqueue -> 200  *)
+(* success | ERROR(FAILED) if full", DESIGN 4-C17) - still as exactly one   *)
+(* well-formed response.  Everywhere else a valid indication must be       *)
+(* accepted, also after a queue-full episode.                               *)
 (***************************************************************************)
 EXTENDS Naturals, Sequences, FiniteSets, TLC
 
@@ -104,12 +116,14 @@ Acc(d, o) ==
                             \/ o.status = 200
                             \/ Is4xx5xx(o) /\ o.cimerror>>
 
-(* clauses about ONE response that did arrive                              *)
-ResponseFails(c, o) ==
+(* clauses about ONE response that did arrive; qfull: the indication queue *)
+(* may be full (see MayBeFull below)                                       *)
+ResponseFails(c, o, qfull) ==
   LET D == Defects(c)
       famOK == IF D = {} THEN o.status = 200
                ELSE \E d \in D : Acc(d, o)[1]
-      allOK == IF D = {} THEN o.status = 200 /\ IsSuccess(o)
+      allOK == IF D = {} THEN o.status = 200 /\
+                              (IsSuccess(o) \/ (qfull /\ IsError(o)))
                ELSE \E d \in D : Acc(d, o)[2]
   IN
      F("ExactlyOneResponse.many", o.nresp = 1)
@@ -135,8 +149,8 @@ ResponseFails(c, o) ==
 (*  garbage : bytes that do not start with an HTTP status line             *)
 Outcomes == {"response", "closed", "waiting", "hang", "garbage"}
 
-RequestFails(c, o) ==
-  CASE o.outcome = "response" -> ResponseFails(c, o)
+RequestFails(c, o, qfull) ==
+  CASE o.outcome = "response" -> ResponseFails(c, o, qfull)
     [] o.outcome = "closed"   -> {"NoDroppedConnection"}
     [] o.outcome = "waiting"  -> F("ExactlyOneResponse.waits",
                                    c.clen \in {"long", "huge"})
@@ -146,13 +160,25 @@ RequestFails(c, o) ==
     [] OTHER                  -> {"UnclassifiedOutcome"}
 
 (* ---- the machine --------------------------------------------------------*)
-(* state: number of requests the listener has seen in this history          *)
-InitState == [n |-> 0]
+(* state: n    = number of requests the listener has seen in this history, *)
+(*        held = number of those since the last drained point whose answer  *)
+(*               does not exclude that an indication went into the queue    *)
+InitState == [n |-> 0, held |-> 0]
+
+(* the answer excludes an enqueue only if it is an HTTP error or an export *)
+(* ERROR; everything else (success, no answer yet, dropped, garbage) may   *)
+(* stand for an indication that sits in the queue                          *)
+MayQueue(o) == ~(o.outcome = "response" /\
+                 (Is4xx5xx(o) \/ (o.status = 200 /\ IsError(o))))
+
+HeldBefore(s, e) == IF e.env.drained THEN 0 ELSE s.held
+MayBeFull(s, e)  == e.env.qcap > 0 /\ HeldBefore(s, e) >= e.env.qcap
 
 Fails(s, e) ==
   IF e.kind = "req"
   THEN LET f == F("KnownRequestClass", e.cls \in Requests)
-                \cup (IF e.cls \in Requests THEN RequestFails(e.cls, e.obs)
+                \cup (IF e.cls \in Requests
+                      THEN RequestFails(e.cls, e.obs, MayBeFull(s, e))
                       ELSE {})
        IN f \cup (IF f # {} /\ e.cls \in Requests /\ IsValid(e.cls) /\ s.n > 0
                   THEN {"SurvivesEarlierRequests"} ELSE {})
@@ -160,5 +186,9 @@ Fails(s, e) ==
   THEN F("ListenerAlive", e.alive.server /\ e.alive.callback)
   ELSE {"KnownEventKind"}
 
-Apply(s, e) == IF e.kind = "req" THEN [n |-> s.n + 1] ELSE s
+Apply(s, e) ==
+  IF e.kind = "req"
+  THEN [n |-> s.n + 1,
+        held |-> HeldBefore(s, e) + (IF MayQueue(e.obs) THEN 1 ELSE 0)]
+  ELSE s
 =============================================================================
